@@ -18,6 +18,16 @@ inductive Tok (α : Type)
   | matchName
   | loc
   | expectation (x : α)
+  | tried (x : α)             -- `x.report_mismatch(os, params)`: the "Tried …" explanation of expectation `x`
+  deriving DecidableEq, Repr
+
+/-- what `hexdump` inserts into the stream, manipulators included. -/
+inductive HTok
+  | sentry                 -- `stream_sentry s(os)`
+  | num (n : Nat)          -- the size
+  | lit (s : String)
+  | setfill0 | hex | setw2 | right
+  | byte (b : Nat)
   deriving DecidableEq, Repr
 
 /-- one executed statement of a translated function in action-trace mode: the statement verbatim, or a member
